@@ -83,7 +83,8 @@ pub enum Op {
     Done,
 }
 
-fn deque_step_case(op: Op, n: usize) {
+/// `idx`: see `c13_vec::vec_step_case`.
+fn deque_step_case(op: Op, n: usize, idx: Option<usize>) {
     let v0 = any_deque(n);
     let len0 = v0.len();
     let first0 = if len0 > 0 { Some(v0[0]) } else { None };
@@ -93,7 +94,10 @@ fn deque_step_case(op: Op, n: usize) {
     crate::robs::verif_hooks::set_capture(true);
 
     let x: u8 = kani::any();
-    let i: usize = kani::any();
+    let i: usize = match idx {
+        Some(c) => c,
+        None => kani::any(),
+    };
     kani::assume(i <= MAXLEN + 1);
     match op {
         Op::PushBack => {
@@ -197,7 +201,7 @@ fn deque_step_case(op: Op, n: usize) {
 }
 
 macro_rules! deque_step_harness {
-    ($($name:ident, $op:expr, $n:expr;)*) => {$(
+    ($($name:ident, $op:expr, $n:expr, $idx:expr;)*) => {$(
         with_lean_model! {
         /// @prop C13
         /// @tier quick
@@ -213,39 +217,55 @@ macro_rules! deque_step_harness {
         #[kani::unwind(6)]
         #[kani::stub(alloc::fmt::format, empty_format)]
         fn $name() {
-            deque_step_case($op, $n);
+            deque_step_case($op, $n, $idx);
         }
         }
     )*};
 }
 
 deque_step_harness! {
-    c13_deque_push_back_n2, Op::PushBack, 2;
-    c13_deque_push_front_n0, Op::PushFront, 0;
-    c13_deque_push_front_n2, Op::PushFront, 2;
-    c13_deque_pop_back_n0, Op::PopBack, 0;
-    c13_deque_pop_back_n3, Op::PopBack, 3;
-    c13_deque_pop_front_n1, Op::PopFront, 1;
-    c13_deque_pop_front_n3, Op::PopFront, 3;
-    c13_deque_insert_n0, Op::Insert, 0;
-    c13_deque_insert_n3, Op::Insert, 3;
-    c13_deque_remove_n3, Op::Remove, 3;
-    c13_deque_swap_remove_back_n3, Op::SwapRemoveBack, 3;
-    c13_deque_swap_remove_front_n3, Op::SwapRemoveFront, 3;
-    c13_deque_get_mut_write_n3, Op::GetMutWrite, 3;
-    c13_deque_iter_mut_write_n3, Op::IterMutWrite, 3;
-    c13_deque_resize_n2, Op::Resize, 2;
-    c13_deque_truncate_n2, Op::Truncate, 2;
-    c13_deque_clear_n2, Op::Clear, 2;
-    c13_deque_retain_n3_m0, Op::Retain(0), 3;
-    c13_deque_retain_n3_m1, Op::Retain(1), 3;
-    c13_deque_retain_n3_m2, Op::Retain(2), 3;
-    c13_deque_retain_n3_m4, Op::Retain(4), 3;
-    c13_deque_retain_n3_m5, Op::Retain(5), 3;
-    c13_deque_retain_n3_m6, Op::Retain(6), 3;
-    c13_deque_retain_n3_m7, Op::Retain(7), 3;
-    c13_deque_shrink_to_fit_n1, Op::ShrinkToFit, 1;
-    c13_deque_done_n1, Op::Done, 1;
+    c13_deque_push_back_n2, Op::PushBack, 2, None;
+    c13_deque_push_front_n0, Op::PushFront, 0, None;
+    c13_deque_push_front_n2, Op::PushFront, 2, None;
+    c13_deque_pop_back_n0, Op::PopBack, 0, None;
+    c13_deque_pop_back_n3, Op::PopBack, 3, None;
+    c13_deque_pop_front_n1, Op::PopFront, 1, None;
+    c13_deque_pop_front_n3, Op::PopFront, 3, None;
+    c13_deque_insert_n0, Op::Insert, 0, None;
+    c13_deque_insert_n3_i0, Op::Insert, 3, Some(0);
+    c13_deque_insert_n3_i1, Op::Insert, 3, Some(1);
+    c13_deque_insert_n3_i3, Op::Insert, 3, Some(3);
+    c13_deque_remove_n3_i0, Op::Remove, 3, Some(0);
+    c13_deque_remove_n3_i1, Op::Remove, 3, Some(1);
+    c13_deque_remove_n3_i3, Op::Remove, 3, Some(3);
+    c13_deque_swap_remove_back_n3_i0, Op::SwapRemoveBack, 3, Some(0);
+    c13_deque_swap_remove_back_n3_i2, Op::SwapRemoveBack, 3, Some(2);
+    c13_deque_swap_remove_back_n3_i3, Op::SwapRemoveBack, 3, Some(3);
+    c13_deque_swap_remove_front_n3_i0, Op::SwapRemoveFront, 3, Some(0);
+    c13_deque_swap_remove_front_n3_i2, Op::SwapRemoveFront, 3, Some(2);
+    c13_deque_swap_remove_front_n3_i3, Op::SwapRemoveFront, 3, Some(3);
+    c13_deque_get_mut_write_n3_i0, Op::GetMutWrite, 3, Some(0);
+    c13_deque_get_mut_write_n3_i2, Op::GetMutWrite, 3, Some(2);
+    c13_deque_get_mut_write_n3_i3, Op::GetMutWrite, 3, Some(3);
+    c13_deque_iter_mut_write_n3_i0, Op::IterMutWrite, 3, Some(0);
+    c13_deque_iter_mut_write_n3_i2, Op::IterMutWrite, 3, Some(2);
+    c13_deque_resize_n2_i0, Op::Resize, 2, Some(0);
+    c13_deque_resize_n2_i2, Op::Resize, 2, Some(2);
+    c13_deque_resize_n2_i4, Op::Resize, 2, Some(4);
+    c13_deque_truncate_n2_i0, Op::Truncate, 2, Some(0);
+    c13_deque_truncate_n2_i1, Op::Truncate, 2, Some(1);
+    c13_deque_truncate_n2_i2, Op::Truncate, 2, Some(2);
+    c13_deque_truncate_n2_i3, Op::Truncate, 2, Some(3);
+    c13_deque_clear_n2, Op::Clear, 2, None;
+    c13_deque_retain_n3_m0, Op::Retain(0), 3, None;
+    c13_deque_retain_n3_m1, Op::Retain(1), 3, None;
+    c13_deque_retain_n3_m2, Op::Retain(2), 3, None;
+    c13_deque_retain_n3_m4, Op::Retain(4), 3, None;
+    c13_deque_retain_n3_m5, Op::Retain(5), 3, None;
+    c13_deque_retain_n3_m6, Op::Retain(6), 3, None;
+    c13_deque_retain_n3_m7, Op::Retain(7), 3, None;
+    c13_deque_shrink_to_fit_n1, Op::ShrinkToFit, 1, None;
+    c13_deque_done_n1, Op::Done, 1, None;
 }
 
 // ---------------------------------------------------------------------------
